@@ -19,6 +19,7 @@ import functools
 import hashlib
 import inspect
 import operator
+import re as _re
 import types
 
 import z3
@@ -147,6 +148,9 @@ class Env:
         if hasattr(builtins, name):
             return getattr(builtins, name)
         raise NameError(f"name '{name}' is not defined")
+
+
+_RE_PATTERN = type(_re.compile(''))
 
 
 class Closure:
@@ -321,6 +325,12 @@ class Interp:
             return ov(self, *args, **kwargs)
         if isinstance(f, Closure):
             return self.call_closure(f, args, kwargs)
+        rs = getattr(self.ctx, "regex_stub", None)
+        if rs is not None and isinstance(getattr(f, "__self__", None), _RE_PATTERN):
+            # a method of a compiled pattern, answered by the pattern's contract (pyvc/rx.py decides that contract for all strings)
+            r = rs(self, f.__self__, f.__name__, args, kwargs)
+            if r is not NotImplemented:
+                return r
         if isinstance(f, functools.partial):
             return self.call_value(f.func, tuple(f.args) + tuple(args), {**(f.keywords or {}), **kwargs})
         if isinstance(f, types.MethodType):
@@ -820,6 +830,9 @@ class Interp:
                 self.exec_block(node.finalbody, env)
 
     def s_While(self, node, env):
+        hook = self.ctx.while_hook(self, node, env) if hasattr(self.ctx, "while_hook") else None
+        if hook is not None:
+            return hook()
         while True:
             self._tick()
             if not self.truth(self.eval(node.test, env)):
@@ -889,6 +902,13 @@ class Interp:
         h = getattr(obj, "__pyvc_getitem__", None)
         if h is not None:
             return h(self, idx)
+        if isinstance(idx, SInt) and isinstance(obj, (tuple, list)) and 0 < len(obj) <= 16:
+            # symbolic position in a concrete sequence: one path per position (IndexError outside the range, as in Python)
+            n = len(obj)
+            for k in range(-n, n):
+                if self.truth(idx == k):
+                    return obj[k]
+            raise IndexError(f"{type(obj).__name__} index out of range")
         if is_sym(idx) or (isinstance(idx, slice) and contains_sym((idx.start, idx.stop, idx.step))):
             raise EngineError(f"symbolic index into {type(obj).__name__}")
         if isinstance(obj, Sym):
